@@ -17,6 +17,7 @@ VERIF = os.path.dirname(HERE)
 HARNESS = os.path.join(VERIF, "harness", "h_pyagg.py")
 QUERIES = [("size",), ("hiindex",), ("loindex",), ("hibound",), ("lobound",), ("unique",)]
 EXTRACTORS = ["pyagg"]
+BUILTINS = [("bi", f) for f in ("SIZEOF", "HIINDEX", "LOINDEX", "HIBOUND", "LOBOUND", "VALUE_UNIQUE")]
 
 # a history: (decl, ops) ; decl = (kind, lo, hi|None, base, unique, optional, byname) ; op = tuple
 
@@ -90,10 +91,11 @@ def alphabet(d, rich=True):
     return ops
 
 
-def exhaustive(d, depth, rich=True):
+def exhaustive(d, depth, rich=True, tail=None):
     """every op sequence of exactly `depth` ops over the declaration's alphabet, each followed by all queries"""
     al = alphabet(d, rich)
-    return [(d, list(seq) + QUERIES) for seq in itertools.product(al, repeat=depth)]
+    tail = QUERIES if tail is None else tail
+    return [(d, list(seq) + tail) for seq in itertools.product(al, repeat=depth)]
 
 
 def array_decls(bounds, base=0):
@@ -150,7 +152,7 @@ class Cursor:
             if r < 0.7:
                 self.size += 1
                 return ("add",) + self.val()
-            return rng.choice(QUERIES)
+            return rng.choice(QUERIES + BUILTINS)
         if k == "ARRAY":
             i = rng.randint(lo - 1, hi + 1)
         else:
@@ -161,7 +163,7 @@ class Cursor:
             return ("set", i) + self.val()
         if r < 0.8:
             return ("get", i)
-        return rng.choice(QUERIES)
+        return rng.choice(QUERIES + BUILTINS + [("biv", "SIZEOF", 0, 1)])
 
 
 def random_history(rng, length):
@@ -514,6 +516,10 @@ def batches(ctx):
     else:
         yield "exhaustive-nested-3", nested(NESTED, 3)
         yield "exhaustive-nested-4", nested(NESTED[:2], 4, full=False)
+    # the built-in functions of Builtin.py on every state reached by short histories
+    for depth in (1, 2, 3):
+        yield f"exhaustive-builtins-{depth}", (h for d in array_decls([(1, 2)]) + list_decls([(0, 2), (1, None)]) + coll_decls([(0, 2), (2, None)])
+                                              for h in exhaustive(d, depth, tail=BUILTINS + [("biv", "HIBOUND", 1, 0)] + QUERIES))
     # three and four levels: the comparison of the element's base type with the declared one at every level
     for depth in ((1, 2) if quick else (1, 2, 3)):
         yield f"exhaustive-deep-nested-{depth}", (h for b in (DEEP[:4] if quick else DEEP)
@@ -530,6 +536,43 @@ def batches(ctx):
     yield "company-a", again
     shuffled = list(again); ctx.rng.shuffle(shuffled)
     yield "company-b-shuffled", shuffled
+
+
+def probe_element_bounds(ctx, sides):
+    """element aggregates with their own bounds: the runtime's answer vs EXPRESS's specialization rule, for every pair of
+    (kind, bounds) from a small table.  `check_type` does not look at bounds (its own @TODO): where the runtime accepts
+    and EXPRESS refuses the difference is the class `element-bounds-ignored` (one finding); anything else is reported
+    under its own key."""
+    B = [(0, 2), (1, 2), (0, 3), (1, 5), (0, None), (2, None)]
+    kinds = ["ARRAY", "LIST", "BAG", "SET"]
+    lines = ["reset"]
+    for k in kinds:
+        for k2 in kinds:
+            for (lo, hi) in B:
+                for (lo2, hi2) in B:
+                    if "ARRAY" in (k, k2) and (hi is None or hi2 is None):
+                        continue
+                    lines.append(f"fits {k} {lo} {'?' if hi is None else hi} {k2} {lo2} {'?' if hi2 is None else hi2}")
+    text = "\n".join(lines) + "\n"
+    out = {side: run_side(getattr(sides, side), text, sides.env if side == "impl" else None)[1] for side in ("impl", "model", "spec")}
+    n_ignored = 0
+    for i, l in enumerate(lines[1:], 1):
+        a, m, sp = canon(out["impl"][i]), out["model"][i], out["spec"][i]
+        ctx.count(1, key=l); ctx.hist("element-bounds", f"{a}/{sp}")
+        if a != m:
+            ctx.broken.append(("correspondence PyAgg model vs TypeChecker.check_type on element aggregates", f"`{l}`: runtime `{a}`, model `{m}`"))
+            return
+        if a == "ok" and sp == "refused":
+            n_ignored += 1
+            if n_ignored == 1:
+                w = l.split()
+                ctx.violation("element-bounds-ignored", f"`{l}`: the runtime stores a {w[1]} [{w[2]}:{w[3]}] OF REAL object where the declared element "
+                              f"type is {w[4]} [{w[5]}:{w[6]}] OF REAL; EXPRESS (9.2.6/13.3.2) requires conforming bounds",
+                              {"lines": ["reset", l], "how": "feed to harness/h_pyagg.py and to `m_c19 spec`"})
+        elif a != sp:
+            ctx.violation("element-bounds:" + l.replace(" ", ","), f"`{l}`: the runtime answered `{a}`, EXPRESS requires `{sp}`",
+                          {"lines": ["reset", l], "how": "feed to harness/h_pyagg.py and to `m_c19 spec`"})
+    ctx.cov["correspondence"]["element-bounds-probe"] = {"pairs": len(lines) - 1, "runtime_accepts_expresss_refuses": n_ignored}
 
 
 def run(ctx):
@@ -558,6 +601,7 @@ def run(ctx):
             break
     if total:
         report(ctx, sides, total)
+    probe_element_bounds(ctx, sides)
     rnd = random_history(ctx.rng, 12)
     ctx.sample({"lines": hist_lines(rnd)})
     ctx.sample({"lines": hist_lines(exhaustive(("LIST", 1, 2, 0, 1, 0, 0), 2)[37])})
@@ -572,9 +616,13 @@ def run(ctx):
 def replay(ctx, path):
     d = json.load(open(path))
     r = d.get("replay", d)
-    h = parse_lines(r["lines"])
     ctx.lean("StepModel.Props.C19", exes=["m_c19"], extractors=EXTRACTORS)
     sides = Sides(ctx)
+    if any(l.startswith("fits") for l in r["lines"]):
+        ctx.distinct = Distinct()
+        probe_element_bounds(ctx, sides)
+        return
+    h = parse_lines(r["lines"])
     ctx.distinct = Distinct()
     pr = evaluate(ctx, sides, [h], "replay")
     if pr:
